@@ -6,7 +6,7 @@
 
 use std::convert::TryFrom;
 
-use anyhow::{format_err, Error};
+use anyhow::{bail, format_err, Error};
 use roxmltree::Node;
 
 use crate::utils::xml::{
@@ -45,7 +45,7 @@ impl TryFrom<&str> for EquipmentKind {
     }
 }
 
-pub fn parse_systems(doc: &roxmltree::Document) -> (Vec<String>, Vec<VypSystem>) {
+pub fn parse_systems(doc: &roxmltree::Document) -> Result<(Vec<String>, Vec<VypSystem>), Error> {
     // Definición de sistemas en VyP - Solución temporal sin descender en elementos
     let systems = doc
         .descendants()
@@ -72,8 +72,9 @@ pub fn parse_systems(doc: &roxmltree::Document) -> (Vec<String>, Vec<VypSystem>)
                 n.children()
                     .filter(roxmltree::Node::is_element)
                     .map(build_system)
-                    .collect()
+                    .collect::<Result<Vec<_>, Error>>()
             })
+            .transpose()?
             .unwrap_or_default(),
         None => vec![],
     };
@@ -83,12 +84,12 @@ pub fn parse_systems(doc: &roxmltree::Document) -> (Vec<String>, Vec<VypSystem>)
         sistemas.push(doas);
     };
 
-    let mut onsiteprod = build_onsite_prod(doc);
+    let mut onsiteprod = build_onsite_prod(doc)?;
     if !onsiteprod.is_empty() {
         sistemas.append(&mut onsiteprod);
     }
 
-    (factores_correccion_sistemas, sistemas)
+    Ok((factores_correccion_sistemas, sistemas))
 }
 
 /// Genera sistema a partir de su nodo XML
@@ -97,7 +98,7 @@ pub fn parse_systems(doc: &roxmltree::Document) -> (Vec<String>, Vec<VypSystem>)
 /// - HVACTemplate:System:UnitarySystem (el unizona y multizona de aire)
 /// - HVACTemplate:System:DualDuct (el multizona de conductos)
 /// - ¿para ACS?
-fn build_system(node: roxmltree::Node) -> VypSystem {
+fn build_system(node: roxmltree::Node) -> Result<VypSystem, Error> {
     let kind = node.tag_name().name().to_string();
     let name = get_tag_as_str(&node, "nombre_usuario").to_string();
     let multiplier = get_tag_as_u32_or(&node, "multiplicador", 1);
@@ -110,8 +111,9 @@ fn build_system(node: roxmltree::Node) -> VypSystem {
             n.children()
                 .filter(Node::is_element)
                 .map(build_generation_equipment)
-                .collect()
+                .collect::<Result<Vec<_>, Error>>()
         })
+        .transpose()?
         .unwrap_or_default();
 
     // Secundarios, en sistemas que no son unizona
@@ -122,8 +124,9 @@ fn build_system(node: roxmltree::Node) -> VypSystem {
             n.children()
                 .filter(Node::is_element)
                 .map(build_zone_equipment)
-                .collect()
-        });
+                .collect::<Result<Vec<_>, Error>>()
+        })
+        .transpose()?;
     // Solo en sistemas de ACS o mixtos
     let dhw_demand = node
         .children()
@@ -135,13 +138,16 @@ fn build_system(node: roxmltree::Node) -> VypSystem {
                 .collect()
         });
 
-    match kind.as_str() {
+    let label = name.clone();
+    let no_zone_equipment = || format_err!("Sistema {} sin unidades terminales", label);
+    let system = match kind.as_str() {
         "SIS_Acs" => VypSystem::Dhw {
             name,
             multiplier,
             // ignoramos este dato ya que es redundante con el de la demanda
             // dhw_supply_temp: get_tag_as_f32(&node, "tImpulsion").unwrap(),
-            dhw_demand: dhw_demand.unwrap(),
+            dhw_demand: dhw_demand
+                .ok_or_else(|| format_err!("Sistema de ACS {} sin demandas", label))?,
             equipment,
         },
         "SIS_Mixto" | "SIS_CalefaccionPorAgua" => {
@@ -158,7 +164,7 @@ fn build_system(node: roxmltree::Node) -> VypSystem {
                 heating_supply_temp,
                 dhw_demand,
                 equipment,
-                zone_equipment: zone_equipment.unwrap(),
+                zone_equipment: zone_equipment.ok_or_else(no_zone_equipment)?,
             }
         }
         "SIS_ClimatizacionUnizona" => {
@@ -176,7 +182,7 @@ fn build_system(node: roxmltree::Node) -> VypSystem {
             let has_heat_recovery = ["Sí tiene", "Si", "Sí"].contains(
                 &get_tag_text(&node, "recuperacionCalor")
                     .map(|s| s.trim().trim_matches('"'))
-                    .unwrap(),
+                    .ok_or_else(|| format_err!("Sistema {} sin dato de recuperación de calor", label))?,
             );
             // Solo conductos 2
             let heat_recovery_eff = get_tag_as_f32_or_default(&node, "eficienciaRecuperador");
@@ -213,11 +219,12 @@ fn build_system(node: roxmltree::Node) -> VypSystem {
                 return_air_flow,
                 options,
                 equipment,
-                zone_equipment: zone_equipment.unwrap(),
+                zone_equipment: zone_equipment.ok_or_else(no_zone_equipment)?,
             }
         }
-        _ => panic!("Sistema de tipo desconocido: {}", kind),
-    }
+        _ => bail!("Sistema de tipo desconocido: {}", kind),
+    };
+    Ok(system)
 }
 
 /// Genera demanda de ACS a partir de su nodo XML
@@ -246,20 +253,23 @@ fn build_dhwdemand(node: roxmltree::Node) -> DhwDemand {
 }
 
 /// Secundarios - equipos de zona (unidades terminales) genera a partir de nodo XML
-fn build_zone_equipment(node: roxmltree::Node) -> ZoneEquipment {
+fn build_zone_equipment(node: roxmltree::Node) -> Result<ZoneEquipment, Error> {
     let kind = node.tag_name().name();
     let name = get_tag_as_str(&node, "nombre_usuario").to_string();
     let zone = get_tag_as_str(&node, "zona").trim_matches('"').to_string();
     let multiplier = get_tag_as_u32_or(&node, "multiplicador", 1);
 
-    match kind {
+    let equipment = match kind {
         "UT_AguaCaliente" => {
             // UT_AGUACALIENTE (UT_RADIADOR?) - "U.T. De Agua Caliente" (Calefacción) ✔
             //    - Nombre,
             //      Zona abastecida (Zona),
             //      Capacidad nominal o potencia máxima (kW) (capNom),
             //      // Ancho de banda del termostato (ºC) (fijo, dtTermostato = 50.0)
-            let name = node.attribute("nombre").unwrap().to_string();
+            let name = node
+                .attribute("nombre")
+                .ok_or_else(|| format_err!("Unidad terminal sin nombre"))?
+                .to_string();
             ZoneEquipment::HotWaterCoil {
                 name,
                 zone,
@@ -304,12 +314,13 @@ fn build_zone_equipment(node: roxmltree::Node) -> ZoneEquipment {
                 multiplier,
             }
         }
-        _ => panic!("Equipo de zona desconocido: {}", kind),
-    }
+        _ => bail!("Equipo de zona desconocido: {}", kind),
+    };
+    Ok(equipment)
 }
 
 /// Primarios + acumulación - equipos de generación a partir del nodo XML
-fn build_generation_equipment(node: roxmltree::Node) -> GenerationEquipment {
+fn build_generation_equipment(node: roxmltree::Node) -> Result<GenerationEquipment, Error> {
     use EquipmentKind::*;
 
     let name = get_tag_as_str(&node, "nombre_usuario").to_string();
@@ -340,7 +351,11 @@ fn build_generation_equipment(node: roxmltree::Node) -> GenerationEquipment {
         .map(|n| {
             (
                 n.tag_name().name().to_string(),
-                n.text().unwrap().trim().trim_matches('"').to_string(),
+                n.text()
+                    .unwrap_or_default()
+                    .trim()
+                    .trim_matches('"')
+                    .to_string(),
             )
         })
         .collect();
@@ -362,10 +377,10 @@ fn build_generation_equipment(node: roxmltree::Node) -> GenerationEquipment {
             tag_name
         }
         .try_into()
-        .unwrap_or_else(|e| panic!("ERROR: {:?}", e))
+        .map_err(|e| format_err!("ERROR: {:?}", e))?
     };
 
-    match kind {
+    let equipment = match kind {
         CalderaConvencional
         | CalderaElectrica
         | CalderaBajaTemperatura
@@ -642,7 +657,8 @@ fn build_generation_equipment(node: roxmltree::Node) -> GenerationEquipment {
                 space_temp,
             })
         }
-    }
+    };
+    Ok(equipment)
 }
 
 /// Genera el sistema exclusivo de ventilación, si existe
@@ -736,12 +752,15 @@ fn build_doas(doc: &roxmltree::Document) -> Option<VypSystem> {
 ///     <valoresMensualesACS>Solar Térmica ACS;FOTOTERMIA;1139.0;1249.0;1684.0;1719.0;1833.0;1978.0;2165.0;2071.0;1809.0;1429.0;1111.0;954.0;Ninguno;Ninguno;0.0;0.0;0.0;0.0;0.0;0.0;0.0;0.0;0.0;0.0;0.0;0.0;Ninguno;Ninguno;0.0;0.0;0.0;0.0;0.0;0.0;0.0;0.0;0.0;0.0;0.0;0.0;Ninguno;Ninguno;0.0;0.0;0.0;0.0;0.0;0.0;0.0;0.0;0.0;0.0;0.0;0.0;Ninguno;Ninguno;0.0;0.0;0.0;0.0;0.0;0.0;0.0;0.0;0.0;0.0;0.0;0.0;Ninguno;Ninguno;0.0;0.0;0.0;0.0;0.0;0.0;0.0;0.0;0.0;0.0;0.0;0.0;Ninguno;Ninguno;0.0;0.0;0.0;0.0;0.0;0.0;0.0;0.0;0.0;0.0;0.0;0.0;Ninguno;Ninguno;0.0;0.0;0.0;0.0;0.0;0.0;0.0;0.0;0.0;0.0;0.0;0.0;Ninguno;Ninguno;0.0;0.0;0.0;0.0;0.0;0.0;0.0;0.0;0.0;0.0;0.0;0.0;Ninguno;Ninguno;0.0;0.0;0.0;0.0;0.0;0.0;0.0;0.0;0.0;0.0;0.0;0.0</valoresMensualesACS>
 ///     <potenciaFVInstalada>10</potenciaFVInstalada>
 // TODO: HULC no tiene datos suficientes de estas instalaciones para completar todos los datos
-fn build_onsite_prod(doc: &roxmltree::Document) -> Vec<VypSystem> {
-    fn parse_ele_prod(data: &str) -> Vec<VypSystem> {
+fn build_onsite_prod(doc: &roxmltree::Document) -> Result<Vec<VypSystem>, Error> {
+    fn parse_ele_prod(data: &str) -> Result<Vec<VypSystem>, Error> {
         let mut systems = vec![];
         for sysdata in data.split(';').collect::<Vec<_>>().as_slice().chunks(14) {
-            let kind = sysdata[0];
-            let name = sysdata[1];
+            let (kind, name) = match sysdata {
+                [kind, name, ..] => (*kind, *name),
+                ["Ninguno"] | [""] => continue,
+                _ => bail!("Datos de generación in situ incompletos: {:?}", sysdata),
+            };
             // let values = sysdata
             //     .iter()
             //     .skip(2)
@@ -771,18 +790,21 @@ fn build_onsite_prod(doc: &roxmltree::Document) -> Vec<VypSystem> {
                     }));
                 }
                 _ => {
-                    panic!("XXX: Tipo desconocido: {}", kind);
+                    bail!("Tipo de generación in situ desconocido: {}", kind);
                 }
             }
         }
-        systems
+        Ok(systems)
     }
 
-    fn parse_thermal_prod(data: &str) -> Vec<VypSystem> {
+    fn parse_thermal_prod(data: &str) -> Result<Vec<VypSystem>, Error> {
         let mut systems = vec![];
         for sysdata in data.split(';').collect::<Vec<_>>().as_slice().chunks(14) {
-            let kind = sysdata[0];
-            let name = sysdata[1];
+            let (kind, name) = match sysdata {
+                [kind, name, ..] => (*kind, *name),
+                ["Ninguno"] | [""] => continue,
+                _ => bail!("Datos de generación in situ incompletos: {:?}", sysdata),
+            };
             // let values = sysdata
             //     .iter()
             //     .skip(2)
@@ -798,11 +820,11 @@ fn build_onsite_prod(doc: &roxmltree::Document) -> Vec<VypSystem> {
                     }));
                 }
                 _ => {
-                    panic!("XXX: Tipo desconocido: {}", kind);
+                    bail!("Tipo de generación in situ desconocido: {}", kind);
                 }
             }
         }
-        systems
+        Ok(systems)
     }
 
     let mut gen_systems = vec![];
@@ -812,7 +834,7 @@ fn build_onsite_prod(doc: &roxmltree::Document) -> Vec<VypSystem> {
                 .descendants()
                 .find(|n| n.has_tag_name("valoresMensualesELE"))
             {
-                gen_systems.append(&mut parse_ele_prod(n.text().unwrap_or_default()));
+                gen_systems.append(&mut parse_ele_prod(n.text().unwrap_or_default())?);
             }
         };
     }
@@ -822,9 +844,9 @@ fn build_onsite_prod(doc: &roxmltree::Document) -> Vec<VypSystem> {
                 .descendants()
                 .find(|n| n.has_tag_name("valoresMensualesACS"))
             {
-                gen_systems.append(&mut parse_thermal_prod(n.text().unwrap_or_default()));
+                gen_systems.append(&mut parse_thermal_prod(n.text().unwrap_or_default())?);
             }
         };
     }
-    gen_systems
+    Ok(gen_systems)
 }
